@@ -1,5 +1,7 @@
 //! C20 executor.  One stdin line per invocation shape of `rec_lambda!`:
-//!     `<caps: string over S/M or -> <tys: string over V/U or -> <nargs> <ret 0|1> <trailing 0|1> [<families> [<atys> <ctys> <rty>]]`
+//!     `<caps: string over S/M or -> <tys: string over V/U or -> <nargs> <ret 0|1> <trailing 0|1> [<families> [<atys> <ctys> <rty> [<form>]]]`
+//! `<form>` is the invocation form of the library macro (u p r x m, see fam.rs; default u); the generated programs have no
+//! crate-level import of the macro, every macro version imports / spells it in the form of its shape.
 //! `<families>` is `-` or a comma separated list of program families (see fam.rs): T L E A Y D<depth> R G N K X.
 //! One output line per shape (same order):
 //!     `<OK|CE|CR> ## <numbers printed by the macro version> ## <numbers printed by the hand-written version> ## <expansion>`
@@ -38,11 +40,12 @@ pub struct Shape {
     pub atys: String,
     pub ctys: String,
     pub rty: char,
+    pub form: char, // invocation form (fam::FORMS), 'u' = `use rlib_lambda::rec_lambda;` + `rec_lambda!(..)`
 }
 
 fn parse(line: &str) -> Shape {
     let t: Vec<&str> = line.split_whitespace().collect();
-    if t.len() != 5 && t.len() != 6 && t.len() != 9 {
+    if t.len() != 5 && t.len() != 6 && t.len() != 9 && t.len() != 10 {
         eprintln!("c20: bad case line {:?}", line);
         std::process::exit(3);
     }
@@ -59,8 +62,13 @@ fn parse(line: &str) -> Shape {
         }
     }
     let dash = |x: &str| if x == "-" { String::new() } else { x.to_string() };
-    let (atys, ctys, rty) = if t.len() == 9 { (dash(t[6]), dash(t[7]), t[8].chars().next().unwrap_or('-')) } else { (String::new(), String::new(), '-') };
-    Shape { caps, nargs: t[2].parse().unwrap(), ret: t[3] == "1", trailing: t[4] == "1", fams, atys, ctys, rty }
+    let form = if t.len() == 10 { t[9].chars().next().unwrap_or('u') } else { 'u' };
+    if !fam::FORMS.contains(form) {
+        eprintln!("c20: unknown invocation form {:?} in {:?}", form, line);
+        std::process::exit(3);
+    }
+    let (atys, ctys, rty) = if t.len() >= 9 { (dash(t[6]), dash(t[7]), t[8].chars().next().unwrap_or('-')) } else { (String::new(), String::new(), '-') };
+    Shape { caps, nargs: t[2].parse().unwrap(), ret: t[3] == "1", trailing: t[4] == "1", fams, atys, ctys, rty, form }
 }
 
 pub fn ty(scalar: bool) -> &'static str {
@@ -178,6 +186,8 @@ fn report(s: &Shape, tag: &str, idx: usize) -> String {
 fn gen_macro_fn(s: &Shape, idx: usize, nested: bool) -> String {
     let mut o = String::new();
     writeln!(o, "fn shape_{}_m{}() {{", idx, if nested { "n" } else { "" }).unwrap();
+    let (import, mac) = fam::inv(s.form);
+    o.push_str(import);
     o.push_str(&setup(s));
     let caps: Vec<String> = s.caps.iter().enumerate()
         .map(|(i, &(m, sc))| format!("v{}: &{}{}", i, if m { "mut " } else { "" }, ty(sc))).collect();
@@ -185,7 +195,7 @@ fn gen_macro_fn(s: &Shape, idx: usize, nested: bool) -> String {
     let trailing = s.trailing;
     let rec = move |es: &[String]| format!("f!({}{})", es.join(", "), if trailing { "," } else { "" });
     o.push_str("    let (r1, r2);\n    {\n");
-    writeln!(o, "        let mut clo = rec_lambda!(f, |{}| {{", caps.join(", ")).unwrap();
+    writeln!(o, "        let mut clo = {}!(f, |{}| {{", mac, caps.join(", ")).unwrap();
     writeln!(o, "            |{}|{} {{", args.join(", "), if s.ret { " -> u64" } else { "" }).unwrap();
     o.push_str(&body(s, &rec, nested));
     o.push_str("            }\n        });\n");
@@ -228,7 +238,7 @@ fn gen_hand_fn(s: &Shape, idx: usize, nested: bool) -> String {
     o
 }
 
-const PROGRAM_HEAD: &str = "#![allow(warnings)]\nuse rlib_lambda::rec_lambda;\nuse std::collections::HashMap;\nuse std::cell::Cell;\n\
+const PROGRAM_HEAD: &str = "#![allow(warnings)]\nuse std::collections::HashMap;\nuse std::cell::Cell;\n\
 fn emit(tag: &str, idx: usize, out: &[u64]) {\n    let mut s = String::new();\n    for z in out { s.push_str(&format!(\" {}\", z)); }\n    println!(\"{} {}{}\", tag, idx, s);\n}\n\
 fn vh(v: &[u64]) -> u64 { v.iter().fold(7u64, |a, b| a.wrapping_mul(1000003).wrapping_add(*b)) }\n\
 fn guard(tag: &str, idx: usize, code: i64, f: fn()) {\n    if std::panic::catch_unwind(f).is_err() { println!(\"{} {} {}\", tag, idx, code); }\n}\n";
@@ -240,6 +250,7 @@ fn prog_fams(s: &Shape) -> Vec<(usize, &str)> {
 
 fn program(shapes: &[(usize, &Shape)]) -> String {
     let mut o = String::from(PROGRAM_HEAD);
+    o.push_str(fam::FORM_ITEMS);
     o.push_str(fam::Y_HELPERS);
     for (idx, s) in shapes {
         o.push_str(&gen_macro_fn(s, *idx, false));
@@ -277,7 +288,8 @@ fn program(shapes: &[(usize, &Shape)]) -> String {
 
 /// only what the expansion comparison looks at: the non-nested macro version of every shape
 fn expansion_program(shapes: &[(usize, &Shape)]) -> String {
-    let mut o = String::from("#![allow(warnings)]\nuse rlib_lambda::rec_lambda;\n");
+    let mut o = String::from("#![allow(warnings)]\n");
+    o.push_str(fam::FORM_ITEMS);
     for (idx, s) in shapes {
         o.push_str(&gen_macro_fn(s, *idx, false));
     }
